@@ -418,7 +418,7 @@ SESSION_PROPS = ['C05', 'C12', 'C13', 'C14', 'C15', 'DRIFT']
 SESSION = {
     # prop: (mc module, mode, decls quick, decls thorough, maxlines quick/thorough, generator kind, domain stat key)
     'C14': dict(mc='MC_Ini', mode='read', decls=([1, 11], [1, 3, 11]), maxlines=(2, 3), kind='robust', dom='ini', invs='ReadInvariants'),
-    'C13': dict(mc='MC_Ini', mode='equiv', decls=([2, 3, 11], [1, 2, 3, 8, 11]), maxlines=(2, 2), kind='equiv', dom='eqv', invs='EquivInvariant'),
+    'C13': dict(mc='MC_Ini', mode='equiv', decls=([2, 3, 11, 17], [1, 2, 3, 8, 11, 17]), maxlines=(2, 2), kind='equiv', dom='eqv', invs='EquivInvariant'),
     'C12': dict(mc='MC_Ini', mode='trip', decls=([11, 8], [1, 2, 8, 9, 11]), maxlines=(2, 2), kind='roundtrip', dom='rt', invs='TripInvariant'),
     'C05': dict(mc='MC_Sources', mode='', decls=([12], [12, 11]), maxlines=(0, 0), kind='sources', dom='src', invs='Precedence'),
 }
@@ -810,9 +810,34 @@ class HelpFamily(SessionFamily):
         return 0
 
 
+class DeclFamily(SimpleFamily):
+    fam = 'decl'
+    mc_module = 'MC_Tag'
+    trace_module = 'Trace_Decl'
+    props = ['C19', 'DRIFT']
+    domkeys = ['ok', 'errtag', 'errdup', 'errshort', 'errbool']
+    rule = ('a scenario is a declaration given as raw struct tag texts (option fields of several types, optionally a nested group with namespace, a command, a positional struct); '
+            'exhaustive part: every string up to mc_bounds.maxlen over {a : " \\ blank LF e-acute} as a tag and every value body up to mc_bounds.maxbody as a Go string literal; '
+            'random part: well-formed tags with escapes, repeated keys, non-ASCII text, marks in every truthy / falsy spelling, collisions directly and through namespaces, '
+            'short names that are too long, defaults on boolean flags, one malformed tag at a random position; class counts: ok = declarations read back and compared attribute by attribute, err* = setup errors expected')
+    assumptions = ['escapes outside Quote.tla (octal, \\U, \\x >= 80) are grey', 'an untagged struct field (flattened by the library) and half-numeric positional counts are grey',
+                   'hidden on groups and commands is non-emptiness of the tag, as the code reads it']
+
+    def mc_cfg(self, ctx):
+        th = ctx.tier == 'thorough'
+        ml, mb = (7, 5) if th else (5, 4)
+        cfg = ('SPECIFICATION Spec\nCONSTANTS\n  Defects = {}\n  MaxLen = %d\n  MaxBody = %d\n  Emit = TRUE\nINVARIANTS ScannerIsGrammar BodyDecoded EmitScn\nCHECK_DEADLOCK FALSE\n' % (ml, mb))
+        return cfg, dict(maxlen=ml, maxbody=mb), NCPU
+
+    def gen_args(self, ctx):
+        n = 300000 if ctx.tier == 'thorough' else 20000
+        return ['gen-decl', '-seed', ctx.seed, '-n', n, '-scen', 'r_scen.ndjson']
+
+
 ARGFAM = ArgParseFamily()
 PROPS = {p: ARGFAM for p in ['C01', 'C02', 'C03', 'C04', 'C06', 'C07', 'C08', 'C09', 'C10', 'C11']}
 PROPS['C20'] = ClosestFamily()
+PROPS['C19'] = DeclFamily()
 SESSFAM = SessionFamily()
 for _p in ['C05', 'C12', 'C13', 'C14']:
     PROPS[_p] = SESSFAM
